@@ -37,8 +37,8 @@ CLAIMED = {
    text="Covenant::from_bytes proved to decode exactly dec_all(bytes) (whole input, no panic) and to_bytes/hash to produce enc_all(ops); lemmas: decode-then-encode returns the same bytes, encode-then-decode the same program. The per-instruction facts K1/K2 they rest on are discharged by Kani/CBMC on the real compiled OpCode::{decode,encode} in the thorough tier (complete: loop-free over all <=35-byte inputs / all operands) and assumed in the quick tier.",
    note=TRUST + "A-HANDOVER: K1/K2 as stated in lemmas/codec.rs are what the Kani harnesses assert; locality of decode in the unread tail (std::io::Read for &[u8]).", technique=T_VERUS + " + Kani/CBMC full-domain harnesses (thorough)"),
  "C10": dict(level="proof", design="DESIGN.md 4/C10",
-   text="Every arm of Executor::step except Exp (lifted mechanically to one method per instruction) proved equal to the spec semantics sem_inner, the dispatcher proved to route each opcode to its arm, update_pc_state proved equal to the recursive loop-bookkeeping spec, step = arm then bookkeeping; run_to_end proved: the result is the top of the stack after some number of successful steps reaching the end of the program, or None when a step fails (run_result); Executor::new / new_from_env / Covenant::execute proved; Value conversions proved. Hence execution is a deterministic function of bytecode, transaction and environment.",
-   note=TRUST + "A-U256/A-CATVEC operation contracts; Exp's result (square-and-multiply) is not under contract (runs through an uncovered instruction are unconstrained in run_result); run_to_end is partial correctness; clauses not fixed by the property text are characterisations of the pinned code (lemmas/melvm_spec.rs header).", technique=T_VERUS + "; match-arm lifting (R5b)"),
+   text="Every arm of Executor::step (lifted mechanically to one method per instruction; Exp's square-and-multiply loop proved to compute b^e mod 2^256 within its bit budget) proved equal to the spec semantics sem_inner, the dispatcher proved to route each opcode to its arm, update_pc_state proved equal to the recursive loop-bookkeeping spec, step = arm then bookkeeping; run_to_end proved: the result is the top of the stack after some number of successful steps reaching the end of the program, or None when a step fails (run_result); Executor::new / new_from_env / Covenant::execute proved; Value conversions proved. Hence execution is a deterministic function of bytecode, transaction and environment.",
+   note=TRUST + "A-U256/A-CATVEC operation contracts; run_to_end is partial correctness (termination not proved); clauses not fixed by the property text are characterisations of the pinned code (lemmas/melvm_spec.rs header).", technique=T_VERUS + "; match-arm lifting (R5b)"),
  "C13": dict(level="proof", design="DESIGN.md 4/C13",
    text="stake_is_consistent <=> the three conditions; load_stake_info registers exactly the consistent SYM stakes and rejects malformed ones; check_tx_validity rejects inputs whose creating transaction is a registered or new stake; apply_tx_batch_impl adds exactly the batch's registered stakes to the stake set; StakeSet::votes/total_votes equal the order-independent sum over stakes with start <= epoch < end; unlock_old keeps exactly e_post_end >= epoch; next_unsealed drops exactly the stakes that ended before the new block's epoch.",
    note=TRUST + "The lock window over whole histories is the composition of these per-block facts (not mechanised as one lemma).", technique=T_VERUS),
